@@ -274,6 +274,10 @@ pub enum Op {
     /// `dl`: None = download callback fails, Some(bytes) = the (compressed) body served.
     Update { chan: Option<String>, resp: Option<Resp>, dl: Option<Vec<u8>> },
     Dmg(Damage),
+    /// A concurrent episode: `upd` (an Update) runs on one thread, `bops` (launch reports, queries,
+    /// checks) one after the other on a second thread; `sched[i]` says which thread is granted the
+    /// i-th state-lock acquisition while both are runnable (0 = update thread, 1 = other thread).
+    Conc { upd: Box<Op>, bops: Vec<Op>, sched: Vec<u8> },
 }
 
 pub fn render_yaml(y: &Result<Yaml, usize>) -> String {
@@ -323,6 +327,12 @@ pub fn render_op(op: &Op, stream: Option<&[u8]>) -> String {
                 (Some(_), Some(s)) => enc_hex(s),
                 (Some(_), None) => enc_hex(&[]),
             }
+        ),
+        Op::Conc { upd, bops, sched } => format!(
+            "conc s={} u={} b={}",
+            if sched.is_empty() { "~".to_string() } else { sched.iter().map(|c| if *c == 0 { 'A' } else { 'B' }).collect::<String>() },
+            enc_tok(&render_op(upd, stream)),
+            join_with(",", &bops.iter().map(|o| enc_tok(&render_op(o, None))).collect::<Vec<_>>())
         ),
         Op::Dmg(d) => match d {
             Damage::ArtDel(n) => format!("dmg art-del {}", n),
@@ -438,6 +448,16 @@ pub fn parse_resp(s: &str) -> Option<Option<Resp>> {
 pub fn parse_op(line: &str, recompress: &dyn Fn(&[u8]) -> Vec<u8>) -> Option<Op> {
     let parts: Vec<&str> = line.split_whitespace().collect();
     match parts.as_slice() {
+        ["conc", rest @ ..] => {
+            let sc = field(rest, "s")?;
+            let sched: Vec<u8> = if sc == "~" { vec![] } else { sc.chars().map(|c| if c == 'A' { 0 } else { 1 }).collect() };
+            let upd = parse_op(&dec_tok(field(rest, "u")?)?, recompress)?;
+            let mut bops = Vec::new();
+            for b in split_list(',', field(rest, "b")?) {
+                bops.push(parse_op(&dec_tok(b)?, recompress)?);
+            }
+            Some(Op::Conc { upd: Box::new(upd), bops, sched })
+        }
         ["init", rest @ ..] => {
             let version = dec_tok(field(rest, "ver")?)?;
             let st = field(rest, "st")?;
